@@ -165,6 +165,7 @@ pub struct FTok {
     pub param_idx: i32,
 }
 
+#[derive(Clone)]
 pub struct Flat {
     pub toks: Vec<FTok>,
     /// tag per element index (pre-order)
